@@ -29,7 +29,7 @@ ASSUMPTIONS = ["function calls are pure (the builder treats only non-assignments
 BUDGET_S = {"quick": 150, "thorough": 1500}
 
 PROFILE = dict(max_phases=1, max_ops=12, real_temps=["x", "z"], uvec_temps=["k1"], arr_temps=["a", "b"],
-               flag_temps=["flag"], int_temps=["n", "m"], fresh_names=True, name_pool="adversarial",
+               flag_temps=["flag"], int_temps=["n", "m"], fresh_names=True, name_pool="adversarial", lookups=True,
                dead_code=True)
 
 
